@@ -1,6 +1,7 @@
 SPECIFICATION GenSpec
 CONSTANTS
   LowerBound = TRUE
+  Remember = FALSE
   GenLen = 10
   BodyOct = {0, 4, 255}
   MaxBody = 2
